@@ -202,6 +202,7 @@ def _fold_operator(g, op):
     for other, lab, must in ((Obj("other", {"__class__": "Image", "img": Opaque("arr", "B")}), "B", True), (Opaque("float", "c"), "c", False)):
         fo = Folder(symbolic=True)
         fo.func_stack.append(g.node)
+        fo.fold_all_methods = True   # helpers the dunder delegates to (_combine, _compare) are part of it
         try:
             r = fo.call(g.node, [Obj("self", {"__class__": "Image", "img": Opaque("arr", "A")}), other])
         except (Refuse, Raised):
@@ -216,6 +217,11 @@ def _fold_operator(g, op):
                 return None
             continue
         c = canon(data[0])
+        if c is None or c[0] not in _OPNAME.values() or {c[1], c[2]} - {"A", "B", "c"}:
+            # not an operator applied to the two data arrays as far as the fold can tell (an unresolved helper, a wrapped call): nothing to judge
+            if must:
+                return None
+            continue
         verdicts.append((c == (_OPNAME[op], "A", lab), f"with {'an image' if must else 'a scalar'} operand the result data is {data[0]!r}"))
     bad = [w for ok, w in verdicts if not ok]
     return (not bad, "; ".join(bad))
@@ -283,6 +289,17 @@ def rule_d(ctx):
     if len(stores) == 1:
         st = stores[0]
         e = expand(f.node, st.value)
+
+        class _Op(ast.NodeTransformer):   # operator.mul(a, b) is a * b
+            def visit_Call(self, c_):
+                self.generic_visit(c_)
+                from ..fold import _OPERATOR_FUNCS
+                if isinstance(c_.func, ast.Attribute) and isinstance(c_.func.value, ast.Name) and c_.func.value.id == "operator" and len(c_.args) == 2 and not c_.keywords \
+                        and c_.func.attr in _OPERATOR_FUNCS and issubclass(_OPERATOR_FUNCS[c_.func.attr], ast.operator):
+                    return ast.copy_location(ast.BinOp(left=c_.args[0], op=_OPERATOR_FUNCS[c_.func.attr](), right=c_.args[1]), c_)
+                return c_
+        from ..flow import clone as _clone
+        e = ast.fix_missing_locations(_Op().visit(_clone(e)))
         try:
             p = ToPoly(atomize=atom)(e)
             if isinstance(st, ast.AugAssign):
@@ -290,6 +307,16 @@ def rule_d(ctx):
                 p = p if not callable(p) else None
             verdict = p is not None and p == X * S
             why = f"`{norm(st)[:80]}` gives {p!r}, not image data times scalar"
+            if not verdict and p is not None and set(p.atoms()) - set(X.atoms()) - set(S.atoms()):
+                verdict = None   # something the polynomial reading does not understand (a call, another name) takes part: nothing to judge
+                # ... unless it is the product itself that a call post-processes (a cast back to the image's dtype, a clip, a rounding)
+                for c_ in ast.walk(e):
+                    if isinstance(c_, ast.Call):
+                        inside = [c_.func.value] if isinstance(c_.func, ast.Attribute) else []
+                        inside += list(c_.args)
+                        if any(isinstance(b, ast.BinOp) and isinstance(b.op, ast.Mult) and {atom(b.left), atom(b.right)} == {"X", "S"} for i_ in inside for b in ast.walk(i_)):
+                            verdict, why = False, f"`{norm(st)[:80]}`: the product is post-processed by `{norm(c_.func)[-40:]}` (raw-array arithmetic does not do that: the dtype / values of the result differ from img.img * scalar)"
+                            break
         except NotPolynomial:
             inner = [c for c in ast.walk(e) if isinstance(c, ast.Call)]
             if inner and any(isinstance(b, ast.BinOp) and isinstance(b.op, ast.Mult) for b in ast.walk(e)):
